@@ -86,19 +86,25 @@ Section TrySpecs.
 
   (** tryBackup: the base is untouched, the invariant is kept whether it
       succeeds or fails; on success the path and all its ancestors are tracked *)
+  (** bookkeeping only grows, and only inside [l] *)
+  Definition infos_ext (w w' : world) (l : list str) : Prop :=
+    (forall q, w_infos w !! q <> None -> w_infos w' !! q = w_infos w !! q) /\
+    (forall q, w_infos w' !! q <> None -> w_infos w !! q <> None \/ In q l).
+
   Definition try_backup_stmt : Prop :=
-    Lb -> Lk -> links_ok tnb tnk accb acck B0 -> all_small B0 ->
+    Lb -> Lk -> links_ok tnb tnk accb acck B0 -> all_small B0 -> swf B0 ->
     forall w p, inv w -> snolinkpar (Vb w) p ->
     exists r w', try_backup base backup p w = (r, w') /\ r <> MHalt /\ inv w' /\ Vb w' = Vb w /\
-                 (r = MOk tt -> w_infos w' !! p <> None /\
-                                Forall (fun q => w_infos w' !! q <> None) (ancestors p)).
+                 infos_ext w w' (cands p) /\
+                 (r = MOk tt -> tracked w' p /\ Forall (tracked w') (ancestors p)).
 
   (** every simple operation keeps the invariant (if it leaves no tracked path
       with another type, D13) *)
   Definition step_stmt : Prop :=
-    Lb -> Lk -> links_ok tnb tnk accb acck B0 -> all_small B0 ->
+    Lb -> Lk -> links_ok tnb tnk accb acck B0 -> all_small B0 -> swf B0 ->
     forall o w, inv w -> covered Vb o w ->
-    exists r w', step base backup o w = (r, w') /\ r <> MHalt /\ (kind_stable Vb w' -> inv w').
+    exists r w', step base backup o w = (r, w') /\ r <> MHalt /\ (kind_stable Vb w' -> inv w') /\
+                 infos_ext w w' (cands (op_name o)).
 
   (** Rollback from any state satisfying the invariant: returns nil, the base
       is back (directory timestamps and the root's own metadata aside), the
@@ -115,6 +121,10 @@ Section TrySpecs.
     | gr_cons w o ops r w1 w2 :
         covered Vb o w -> step base backup o w = (r, w1) -> kind_stable Vb w1 ->
         good_run w1 ops w2 -> good_run w (o :: ops) w2.
+
+  (** the initial state satisfies the invariant *)
+  Definition initial_inv_stmt : Prop :=
+    forall w0, initial Vb Vk tnb tnk accb acck B0 w0 -> inv w0.
 
   Definition c01_stmt : Prop :=
     Lb -> Lk -> all_small B0 ->
